@@ -407,6 +407,11 @@ func utilSession(tag byte, n int) func(l logger) {
 		d5 := newDst(l)
 		wsutil.ControlHandler{Src: ySrc{bytes.NewReader(fill(100, tag)), l}, Dst: d5, State: ws.StateClientSide, DisableSrcCiphering: true}.Handle(ws.Header{Fin: true, OpCode: ws.OpPing, Length: 100})
 		l.Logf("pong %s", framesLog(d5.Bytes()))
+		// a ping whose payload breaks off (the peer went away after 40 of the 100 announced bytes):
+		// whatever is done about it, nothing but this connection's own bytes may go out
+		d6 := newDst(l)
+		perr := wsutil.ControlHandler{Src: ySrc{bytes.NewReader(fill(40, tag+21)), l}, Dst: d6, State: ws.StateClientSide, DisableSrcCiphering: true}.Handle(ws.Header{Fin: true, OpCode: ws.OpPing, Length: 100})
+		l.Logf("ping-cut-short err=%v sent=%s", perr != nil, sum(d6.Bytes()))
 		if ce, ok := cerr.(wsutil.ClosedError); ok {
 			l.Logf("end closed reason=%q", ce.Reason)
 		}
